@@ -1,0 +1,248 @@
+// Copyright 2022-2026 Sauce Labs Inc., all rights reserved.
+//
+// This Source Code Form is subject to the terms of the Mozilla Public
+// License, v. 2.0. If a copy of the MPL was not distributed with this
+// file, You can obtain one at https://mozilla.org/MPL/2.0/.
+
+//go:build verif
+
+package h2
+
+import (
+	"bytes"
+	"container/list"
+	"io"
+	"sync"
+	"sync/atomic"
+	"time"
+
+	"golang.org/x/net/http2"
+)
+
+// VerifRig wires the two real relay objects of Config.Proxy over in-memory
+// framers so that a test driver can feed one raw frame at a time, run the
+// production processFrame on it, let the production writer loop drain
+// relay.output in order, and collect the bytes each endpoint would receive.
+// Nothing here is compiled without the build tag "verif".
+type VerifRig struct {
+	cToS, sToC *relay
+
+	fromClient, fromServer bytes.Buffer // raw frames waiting to be read by the relays
+	toClient, toServer     verifSink    // bytes written towards each endpoint
+
+	drained  atomic.Int64 // frames taken from either output channel during the current step
+	stuck    atomic.Bool  // set when a step exceeded its budget: writers stop draining
+	debug    bool
+	closeAll chan struct{}
+}
+
+type verifSink struct {
+	mu  sync.Mutex
+	buf bytes.Buffer
+}
+
+func (s *verifSink) Write(p []byte) (int, error) {
+	s.mu.Lock()
+	defer s.mu.Unlock()
+	return s.buf.Write(p)
+}
+
+func (s *verifSink) take() []byte {
+	s.mu.Lock()
+	defer s.mu.Unlock()
+	out := append([]byte(nil), s.buf.Bytes()...)
+	s.buf.Reset()
+	return out
+}
+
+// verifSync is a marker pushed through relay.output to learn that everything
+// emitted before it has been written.
+type verifSync struct{ done chan struct{} }
+
+func (verifSync) StreamID() uint32           { return 0 }
+func (verifSync) flowControlSize() int       { return 0 }
+func (v verifSync) send(*http2.Framer) error { close(v.done); return nil }
+
+// NewVerifRig builds the relays exactly as Config.Proxy does (no stream
+// processor factories: frames go straight to the opposite relay's sink).
+func NewVerifRig() *VerifRig {
+	g := &VerifRig{closeAll: make(chan struct{})}
+	cf := http2.NewFramer(&g.toClient, &g.fromClient)
+	sf := http2.NewFramer(&g.toServer, &g.fromServer)
+	cToS := newRelay(ClientToServer, "client", "server", cf, sf, &g.debug)
+	sToC := newRelay(ServerToClient, "server", "client", sf, cf, &g.debug)
+	cToS.peer, sToC.peer = sToC, cToS
+	cToS.processors = &streamProcessors{
+		create: func(id uint32) *Processors {
+			return &Processors{cToS: &relayAdapter{id, cToS}, sToC: &relayAdapter{id, sToC}}
+		},
+	}
+	sToC.processors = cToS.processors
+	g.cToS, g.sToC = cToS, sToC
+	for _, r := range []*relay{cToS, sToC} {
+		go g.writer(r)
+	}
+	return g
+}
+
+// writer is the writer goroutine of relay.relayFrames (same body: take a frame
+// from r.output, send it on r.dest under destMu).
+func (g *VerifRig) writer(r *relay) {
+	for {
+		select {
+		case f := <-r.output:
+			if g.stuck.Load() {
+				<-g.closeAll // stop draining: the producer blocks on the full channel
+				return
+			}
+			g.drained.Add(1)
+			r.destMu.Lock()
+			_ = f.send(r.dest)
+			r.destMu.Unlock()
+		case <-g.closeAll:
+			return
+		}
+	}
+}
+
+// Close stops the writer goroutines.
+func (g *VerifRig) Close() { close(g.closeAll) }
+
+// VerifStep is what one input frame caused.
+type VerifStep struct {
+	ReadErr    error  // http2.Framer.ReadFrame refused the frame (relayFrames would return)
+	ProcessErr error  // processFrame returned an error (relayFrames would return)
+	Diverged   bool   // processFrame did not return within the budget (frames/time)
+	ToClient   []byte // raw frames written towards the client during this step, in order
+	ToServer   []byte
+}
+
+// Step feeds one raw frame as if read from the client (fromClient) or the
+// server, runs the real ReadFrame + processFrame and waits until the writer
+// loops have written everything that was released.
+func (g *VerifRig) Step(fromClient bool, raw []byte, maxFrames int64, maxWait time.Duration) VerifStep {
+	var st VerifStep
+	r := g.sToC
+	in := &g.fromServer
+	if fromClient {
+		r, in = g.cToS, &g.fromClient
+	}
+	in.Write(raw)
+	f, err := r.src.ReadFrame()
+	if err != nil {
+		in.Reset()
+		st.ReadErr = err
+		return st
+	}
+	g.drained.Store(0)
+	done := make(chan error, 1)
+	go func() { done <- r.processFrame(f) }()
+	deadline := time.After(maxWait)
+	tick := time.NewTicker(2 * time.Millisecond)
+	defer tick.Stop()
+wait:
+	for {
+		select {
+		case st.ProcessErr = <-done:
+			break wait
+		case <-tick.C:
+			if g.drained.Load() > maxFrames {
+				st.Diverged = true
+			}
+		case <-deadline:
+			st.Diverged = true
+		}
+		if st.Diverged {
+			g.stuck.Store(true)
+			st.ToClient, st.ToServer = g.toClient.take(), g.toServer.take()
+			return st
+		}
+	}
+	for _, rr := range []*relay{g.cToS, g.sToC} {
+		s := verifSync{make(chan struct{})}
+		rr.output <- s
+		<-s.done
+	}
+	st.ToClient, st.ToServer = g.toClient.take(), g.toServer.take()
+	return st
+}
+
+// VerifQueued describes one queued frame.
+type VerifQueued struct {
+	Kind      string // data, headers, push_promise, priority, rst_stream
+	FlowSize  int
+	EndStream bool
+	ChunkLens []int
+}
+
+// VerifStream is the flow-control state kept for one stream.
+type VerifStream struct {
+	ID     uint32
+	Window int
+	Queue  []VerifQueued
+}
+
+// VerifSnapshot is the flow-control state of one relay.
+type VerifSnapshot struct {
+	MaxFrameSize      uint32
+	InitialWindowSize uint32
+	ConnectionWindow  int
+	Streams           []VerifStream // unordered (map)
+}
+
+// Snapshot reads the state of the relay that sends towards the client
+// (towardsClient) or towards the server.
+func (g *VerifRig) Snapshot(towardsClient bool) VerifSnapshot {
+	r := g.cToS
+	if towardsClient {
+		r = g.sToC
+	}
+	var s VerifSnapshot
+	s.MaxFrameSize = atomic.LoadUint32(&r.maxFrameSize)
+	r.flowMu.Lock()
+	defer r.flowMu.Unlock()
+	s.InitialWindowSize = r.initialWindowSize
+	s.ConnectionWindow = r.connectionWindowSize
+	for id, w := range r.outputBuffers {
+		vs := VerifStream{ID: id, Window: w.windowSize}
+		vs.Queue = verifQueue(&w.queue)
+		s.Streams = append(s.Streams, vs)
+	}
+	return s
+}
+
+func verifQueue(l *list.List) []VerifQueued {
+	var out []VerifQueued
+	for e := l.Front(); e != nil; e = e.Next() {
+		f := e.Value.(queuedFrame) //nolint:forcetypeassert // always a queuedFrame
+		q := VerifQueued{FlowSize: f.flowControlSize()}
+		switch f := f.(type) {
+		case *queuedDataFrame:
+			q.Kind, q.EndStream = "data", f.endStream
+		case *queuedHeaderFrame:
+			q.Kind, q.EndStream = "headers", f.endStream
+			for _, c := range f.chunks {
+				q.ChunkLens = append(q.ChunkLens, len(c))
+			}
+		case *queuedPushPromiseFrame:
+			q.Kind = "push_promise"
+			for _, c := range f.chunks {
+				q.ChunkLens = append(q.ChunkLens, len(c))
+			}
+		case *queuedPriorityFrame:
+			q.Kind = "priority"
+		case *queuedRSTStreamFrame:
+			q.Kind = "rst_stream"
+		}
+		out = append(out, q)
+	}
+	return out
+}
+
+// VerifForwardPreface exposes forwardPreface.
+func VerifForwardPreface(server io.Writer, client io.Reader) error {
+	return forwardPreface(server, client)
+}
+
+// VerifConnectionPreface returns the expected client preface.
+func VerifConnectionPreface() []byte { return append([]byte(nil), connectionPreface...) }
